@@ -46,7 +46,7 @@ PROPERTIES = {
                         "so that a stalled machine raises no false alarm). Determinism: the model is a function, so C12_deterministic "
                         "is trivial for it; run-to-run variation of the Go code (map iteration order, state kept between parsers) is "
                         "outside the functional model and is observed by parsing every text five times with fresh parsers and "
-                        "comparing all outcomes. KNOWN FINDING " + "C12-lookahead-scanner-error-drops-previous-definition"
+                        "comparing all outcomes including the error text. KNOWN FINDING " + "C12-lookahead-scanner-error-drops-previous-definition"
                         ": a NUL / invalid UTF-8 byte as the very first byte after a BS_, NS_, BO_ or SG_ definition (or directly after "
                         "the line end of a BU_ / unknown line) is reported by the scanner while that definition is still reading, so it "
                         "is missing from Defs(); exactly these cases are excluded, every other locality failure is a violation.",
@@ -73,6 +73,10 @@ RULES = {
            "replace a mandatory token by an illegal character ($ ? NUL 0xFF truncated/surrogate UTF-8), truncate inside a string, "
            "unterminated string, oversized number, keyword replaced by $, keyword replaced by NUL / 0xFF / truncated 2-byte "
            "sequence (illegal-first-byte, counted per kind of the preceding definition; the witness BO_ 1 M: 8 N\\n\\x00 first), "
+           "a token that the parser hands to an X.Validate() replaced by a SCANNABLE token the Validate rejects, one per class "
+           "present in the definition (invalid-attrtype / -objtype / -access / -envtype / -sigvaltype / -msgid (standard > 0x7ff, "
+           "extended > 0x1fffffff) / -ident (129 characters, non-ASCII letter or digit) / -strident: all eight Validate call sites "
+           "of parser.go; the site that rejected is counted as <stream>-validate-<site> from the implementation's reason), "
            "NUL / 0xFF / truncated / surrogate UTF-8 inserted INSIDE the definition after its intact keyword: in the middle of every "
            "string literal and at one more place (illegal-inside; Defs() must not contain the corrupted definition: clause "
            "locality-corrupted-definition-reported)}; (b) c12b-<generator>-<outcome>: grammar outputs with 1-3 byte "
@@ -88,7 +92,8 @@ RULES = {
            "embedded LF and CRLF, NUL and invalid UTF-8 inside (always emitted) and the four unterminated literals \" \"a \"\\ \"\\\" "
            "(always emitted, both followed by the rest of the definition and as the last bytes of the input); variants: alone / followed by another definition / input "
            "ends right after the changed token; quick = every triple at the SG_ multiplexer position (alone and at the end of the "
-           "input), the attribute value / range positions, enum indices and message ids plus one in 8 of the others chosen by the "
+           "input), the attribute value / range positions, enum indices, message ids and one position per Validate call site "
+           "(attribute value type, object type, access type, env-var type, signal value type, identifier) plus one in 8 of the others chosen by the "
            "seed, thorough = every triple in all three variants (~126000); non-trivial = error or at least one definition; "
            "distinct by text hash; (d) c12b-bytesweep-<kind>-<outcome>: byte sweep over the same 49 instances (tokmut.go "
            "emitByteSweep): at each of the 168 positions that hold a string literal or an identifier (keywords included) one item "
@@ -102,7 +107,8 @@ RULES = {
            "position and one identifier position per definition kind, one in 8 of the rest chosen by the seed (~64000 cases); "
            "thorough = every (position, item, place), the mandatory positions in all three variants (~260000). Every text of "
            "(a)-(d) is parsed five times by fresh parsers and all five outcomes (kind, position, Defs()) must be equal "
-           "(determinism clause); generated files carry near-colliding identifiers (other capitalization, one character "
+           "(determinism clause; also the complete error text Error() and Reason(), which is compared between the five runs only, "
+           "not with the model: a difference is reported with both texts); generated files carry near-colliding identifiers (other capitalization, one character "
            "replaced / added / dropped at either end) among all names, BA_DEF_ names that nearly collide with earlier ones and "
            "BA_DEF_DEF_ / BA_ references that match no BA_DEF_ exactly (counted as c12a-file-attr-*-near-collision)",
 }
